@@ -155,6 +155,11 @@ func (t *wScreen) drawCell(x, y int) int {
 		s = string(mainc)
 	}
 
+	if width > 1 && x+width > t.w {
+		// too wide to fit: a blank instead, as on the other screens
+		s = " "
+	}
+
 	t.cells.SetDirty(x, y, false)
 	js.Global().Call("drawCell", x, y, s, fg, bg, int(style.attrs), int(us), int(uc))
 	if width > 1 && x+1 < t.w {
@@ -393,7 +398,9 @@ func (t *wScreen) onKeyEvent(this js.Value, args []js.Value) interface{} {
 	}
 
 	// check for special case of Ctrl + key
-	if mod == ModCtrl {
+	if mod&ModCtrl != 0 {
+		// (with Ctrl held, whatever else is: Ctrl+Alt+c is KeyCtrlC with
+		// both modifiers, as on a terminal)
 		if k, ok := WebKeyNames["Ctrl-"+strings.ToLower(key)]; ok {
 			t.postEvent(NewEventKey(k, 0, mod))
 			return nil
